@@ -5,10 +5,10 @@ Fx(m, a, bb, s) == [main |-> m, A |-> a, B |-> bb, S |-> s]
 Vol(m, a, bb, s) == [main |-> m, A |-> a, B |-> bb, S |-> s]
 Rv(a, bb) == [A |-> a, B |-> bb]
 Scene(shape, snd, fx, vol, rv, send) ==
-  [shape |-> shape, trk |-> {"A", "B"}, snd |-> snd, fx |-> fx, vol |-> vol, rv |-> rv, send |-> send, send2 |-> FALSE, rv2 |-> Rv(-1, -1)]
+  [shape |-> shape, trk |-> {"A", "B"}, snd |-> snd, fx |-> fx, vol |-> vol, rv |-> rv, send |-> send, send2 |-> FALSE, rv2 |-> Rv(-1, -1), persistB |-> FALSE]
 \* a second send track
 Scene2(shape, snd, fx, vol, rv, rv2) ==
-  [shape |-> shape, trk |-> {"A", "B"}, snd |-> snd, fx |-> fx, vol |-> vol, rv |-> rv, send |-> TRUE, send2 |-> TRUE, rv2 |-> rv2]
+  [shape |-> shape, trk |-> {"A", "B"}, snd |-> snd, fx |-> fx, vol |-> vol, rv |-> rv, send |-> TRUE, send2 |-> TRUE, rv2 |-> rv2, persistB |-> FALSE]
 \* families of scenes: both shapes x effect placements x muted branch x route tables
 QuickScenes ==
   { Scene(sh, {"s0", "s1", "s2"}, fx, vol, rv, TRUE) :
@@ -19,6 +19,8 @@ QuickScenes ==
   \cup { Scene(sh, {"s1", "s2"}, Fx(TRUE, FALSE, TRUE, FALSE), Vol(1, 1, 1, 1), Rv(-1, -1), FALSE) : sh \in {"chain", "fork"} }
   \cup { Scene2(sh, {"s0", "s1", "s2"}, Fx(FALSE, FALSE, FALSE, TRUE), Vol(1, 1, 1, 1), rv, rv2) :
             sh \in {"chain", "fork"}, rv \in {Rv(1, 1), Rv(1, -1)}, rv2 \in {Rv(1, 1), Rv(-1, 1), Rv(1, -1)} }
+  \cup { [Scene(sh, {"s0", "s1", "s2"}, Fx(FALSE, FALSE, FALSE, FALSE), Vol(1, 1, 1, 1), Rv(1, 1), TRUE) EXCEPT !.persistB = TRUE] :
+            sh \in {"chain", "fork"} }
 ThoroughScenes ==
   { Scene(sh, snd, fx, vol, rv, TRUE) :
       sh \in {"chain", "fork"}, snd \in {{"s0", "s1", "s2"}, {"s1", "s2"}, {"s2"}},
